@@ -10,7 +10,9 @@ CHECKS = {
              "stated token bound every value is covered by the solver; failures are replayed natively before being reported.",
         note="Trusted: rustc's MIR dump reflects the compiled code; the stubs for std/drop_bomb/limit listed in the evidence have "
              "the documented contracts; z3. Bounds: uncut sequences <= 2 (quick) / 3 (thorough) tokens, single constructs from a "
-             "top-level loop head <= 3 / 4 tokens. Longer inputs and rowan are outside the claim.",
+             "top-level loop head <= 3 / 4 tokens; every prefix of every depth-1 statement skeleton (quick); thorough: every prefix and every "
+             "one-token substitution (token kind symbolic) of the depth-2 skeletons and one symbolic token inserted at every position of the "
+             "depth-1 skeletons. Longer inputs and rowan are outside the claim.",
         technique="symbolic execution of rustc MIR (path enumeration) + z3 SMT feasibility/obligation queries, native replay",
         design="6/C01"),
 }
@@ -87,7 +89,9 @@ CHECKS.update({
              "through the REAL SyntaxTreeBuilder::error (MIR) for 11 erroneous shapes with a symbolic code point around the error position and "
              "the resulting SyntaxError ranges get the same obligations; (d) SemanticError::range is structurally node.text_range() in the MIR.",
         note="Trusted: rowan text ranges, MIR dump, stubs, z3. Raw-token starts are char boundaries by C14. Bounds: <= 2 / 3 raw tokens full "
-             "alphabet, <= 3 / 4 over the error-recovery sub-alphabet; escape literals of <= 3 / 4 code points.",
+             "alphabet, <= 3 / 4 over the error-recovery sub-alphabet; part (b) also on every one-token substitution of the depth-1 (quick) / "
+             "depth-2 (thorough) statement skeletons and, thorough, one symbolic token inserted at every position of the depth-1 skeletons; "
+             "escape literals of <= 3 / 4 code points.",
         technique=MC, design="6/C12"),
     "C15": dict(
         text="Pairs of lexemes from the reference lexeme grammar (/verif/spec/lexemes.py: each lexeme a list of symbolic code points "
